@@ -13,7 +13,9 @@ MANIFEST = dict(
           "cache, file size, statistics compared after every step); an independent oracle checks the property on the implementation's results"),
     note=("trusted: Lean kernel, translator, harness/generator, gcc+ASan/UBSan; modelled not verified: the C control flow of the functions named; "
           "the over-allocation heuristic computes in double: the theorems hold for every outcome of it, the driver mirrors it with Float; "
-          "page size 4096; offsets and lengths below 2^32 blocks; hints below the end of the bitmap area times 1.2"),
+          "page size 4096; offsets and lengths below 2^32 blocks; non-strict mode: releases of free blocks are accepted by the code (open finding FSM6), "
+          "the theorems assume releases name allocated ranges there; byte preservation of reallocate is tied (pattern bytes), not a theorem; "
+          "tree modelled = /repo + fix commits 92a58a8 c298771 178a684 2507f48 9fd915e dd41311 (+474d361 of exf12)"),
     technique="Lean 4 proof over executable model + differential correspondence (C harness vs compiled Lean driver) + shadow-interval oracle")
 MODULE = "IwModel.Props.C10"
 THEOREMS = ["IwModel.C10." + n for n in (
@@ -154,7 +156,7 @@ def run(ctx):
     ok, drv_ok = ctx.prove(MODULE, THEOREMS)
     h = F.build(ctx)
     drv = C.drv_path() if drv_ok else None
-    n = 70 if ctx.tier == "quick" else 700
+    n = 300 if ctx.tier == "quick" else 3000
     F.explore(ctx, h, drv, cases_main(C.Rng(ctx.seed, "c10/main"), n, ctx.tier), "main", "c10")
     if ctx.proof_broken or ctx.corr_broken:
         ctx.log("obligation or correspondence broken: widening the search for a failing input")
